@@ -286,6 +286,7 @@ let rec handle (line : string) : string =
      | M.Ok ms -> "OK " ^ String.concat " " (List.map bmsg_str ms)
      | M.Err e -> "ERR " ^ berr_str e)
   (* ---------------- C16 configuration ---------------- *)
+  | ["CFGREAD"; _; _] -> "SKIP"   (* the buffer a client really reads with: decided by the harness predicate against C16_defaults *)
   | ["CFG"; addr; user; pass; key; port; hb; conn; send; recv; ck; rbuf] ->
     let cks = match ck with "nil" -> M.CNil | "true" -> M.CBool true | "false" -> M.CBool false | k -> M.COther (n_of_str k) in
     let c = { M.address = bytes_of_hex addr; M.user = bytes_of_hex user; M.password = bytes_of_hex pass; M.key = bytes_of_hex key;
@@ -395,6 +396,7 @@ let rec handle (line : string) : string =
         div := d';
         "c=" ^ hex_of_bytes c ^ " rt=" ^ verdict_str (List.nth vs (List.length vs - 1))
       | _ -> "?") (List.tl parts))
+  | "RC" :: _ -> "SKIP"   (* feeding on after a refusal: only "no panic" is claimed, by the harness predicate *)
   | "R" :: key :: iv :: chunks | "XR" :: key :: iv :: chunks ->
     let (vs, _) = M.model_feed (ks_of_hexkey key) M.rinit (iv_of_hex iv) (List.map bytes_of_hex chunks) in
     String.concat " ; " (List.map verdict_str vs)
